@@ -22,7 +22,7 @@ impl ProgProperty for C03 {
     }
     fn cases(&self, tier: Tier) -> u64 {
         match tier {
-            Tier::Quick => 25_000,
+            Tier::Quick => 40_000,
             Tier::Thorough => 600_000,
         }
     }
@@ -127,6 +127,6 @@ impl ProgProperty for C03 {
     }
     fn floors(&self, tier: Tier) -> Vec<(&'static str, u64)> {
         let q = if tier == Tier::Quick { 1 } else { 20 };
-        vec![("nontrivial", 2000 * q), ("stack-temporaries(temps>=12)", 400 * q), ("jit-forms", if tier == Tier::Quick { 60 } else { 70 })]
+        vec![("nontrivial", 3000 * q), ("stack-temporaries(temps>=12)", 600 * q), ("jit-forms", if tier == Tier::Quick { 60 } else { 70 })]
     }
 }
